@@ -520,7 +520,10 @@ pub enum OsOp {
     SetLen(u64, u64),
     EnsureLen(u64, u64),
     Unlink(u64),
-    Sync,
+    /// `fdatasync` of a WAL file: its content so far is on stable storage
+    SyncFile(u64),
+    /// `fsync` of the directory: file creations and removals so far are on stable storage
+    SyncDir,
 }
 
 pub const BUF_CAP: usize = 32768;
@@ -560,7 +563,8 @@ impl BufModel {
                 self.pend.extend_from_slice(data);
             }
             Event::Flush => self.flush(ops),
-            Event::FsyncFile(_) | Event::FsyncDir => ops.push(OsOp::Sync),
+            Event::FsyncFile(f) => ops.push(OsOp::SyncFile(*f)),
+            Event::FsyncDir => ops.push(OsOp::SyncDir),
             Event::Create(f) => ops.push(OsOp::Create(*f)),
             Event::SetLen(f, n) => ops.push(OsOp::SetLen(*f, *n)),
             Event::EnsureLen(f, n) => ops.push(OsOp::EnsureLen(*f, *n)),
@@ -614,6 +618,55 @@ pub fn apply_os(img: &mut Img, op: &OsOp, cut: Option<usize>) {
         OsOp::Unlink(f) => {
             img.remove(f);
         }
-        OsOp::Sync => {}
+        OsOp::SyncFile(_) | OsOp::SyncDir => {}
     }
+}
+
+/// What survives a power loss after the first `instant` OS operations under the POSIX durability
+/// rules: a file's content is what it was at its last `fdatasync` (later writes are lost: the
+/// pre-sized file reads zeros there), and a file exists iff its creation was followed by an fsync
+/// of the directory (removals since the last directory fsync are assumed done: a file that
+/// reappears only adds older, already superseded entries in front). Returns the image plus the
+/// recipe (`drop` files, `zero` file from offset) that turns the plain prefix image into it.
+pub fn power_loss_image(os: &[OsOp], instant: usize) -> (Img, Vec<u64>, Vec<(u64, u64)>) {
+    let mut img = Img::new();
+    let mut written_end: BTreeMap<u64, u64> = BTreeMap::new();
+    let mut synced_end: BTreeMap<u64, u64> = BTreeMap::new();
+    let mut dir_synced: std::collections::BTreeSet<u64> = Default::default();
+    for op in &os[..instant.min(os.len())] {
+        apply_os(&mut img, op, None);
+        match op {
+            OsOp::Write { file, off, data } => {
+                let e = written_end.entry(*file).or_insert(0);
+                *e = (*e).max(off + data.len() as u64);
+            }
+            OsOp::SyncFile(f) => {
+                synced_end.insert(*f, written_end.get(f).copied().unwrap_or(0));
+            }
+            OsOp::SyncDir => {
+                dir_synced = img.keys().copied().collect();
+            }
+            _ => {}
+        }
+    }
+    let mut drop = Vec::new();
+    let mut zero = Vec::new();
+    let files: Vec<u64> = img.keys().copied().collect();
+    for f in files {
+        if !dir_synced.contains(&f) {
+            img.remove(&f);
+            drop.push(f);
+            continue;
+        }
+        let s = synced_end.get(&f).copied().unwrap_or(0);
+        let w = written_end.get(&f).copied().unwrap_or(0);
+        if w > s {
+            let c = img.get_mut(&f).unwrap();
+            for b in c.iter_mut().skip(s as usize) {
+                *b = 0;
+            }
+            zero.push((f, s));
+        }
+    }
+    (img, drop, zero)
 }
